@@ -542,7 +542,13 @@ func (ri *RedisInput) run() error {
 	ri.sendOutput(runScope, reader)
 
 	runScope.WgWait()
-	return runScope.Error()
+	err := runScope.Error()
+	if errors.Is(err, common.ErrCorrupted) && !errors.Is(err, ErrCorrupted) {
+		// a cached file failed verification while the reader moved on to it : like a
+		// reader that cannot be opened, the run loop drops the cache (ErrCorrupted)
+		err = errors.Join(ErrCorrupted, err)
+	}
+	return err
 }
 
 func (ri *RedisInput) readChannel(wait usync.WaitCloser, readerOffset StartPoint) ChannelReader {
